@@ -168,6 +168,81 @@ class ResetStats(Contract):
         yield 'canary:stats_kept', len(st.h.return_stats()) == 1
 
 
+class ReturnStats(Contract):
+    """results handed to the user are the user's: a later reset / run on the same controller neither changes them nor is changed through them"""
+
+    prop = 'C19'
+    name = 'Controller.return_stats [returned results are not aliased with controller state]'
+    target = ('pySDC/core/controller.py', 'Controller.return_stats')
+    label = 'instance-proved'
+    native = False
+
+    def instances(self, tier):
+        return [dict(n=1, d=0, nlevels=1, active=1, nhooks=k) for k in (1, 2)]
+
+    def build(self, inst, mk):
+        from pySDC.core.hooks import Hooks
+
+        st = setup_block(mk, inst, 'IT_UP', stub_comm=False)
+        c = st.c
+        while len(c.hooks) < inst['nhooks']:
+            c.hooks.append(Hooks())
+        st.vals = {}
+        for i, h in enumerate(c.hooks):
+            h.reset_stats()
+            for j in range(2):
+                v = mk.real(f'v{i}_{j}')
+                h.add_to_stats(value=v, process=i, time=j, type=f'x{i}')
+                st.vals[(i, j)] = v
+        st.owned = lambda: {id(o) for o in _reachable(c)}
+        st.owned_before = st.owned()
+
+        def call():
+            r1 = c.return_stats()
+            st.r1_items = list(r1.items())
+            st.r1 = r1
+            # what the next run() does first: reset the statistics, then log again
+            for i, h in enumerate(c.hooks):
+                h.reset_stats()
+                h.add_to_stats(value=mk.real(f'w{i}'), process=i, time=9, type=f'y{i}')
+            st.r2 = c.return_stats()
+            return r1
+
+        st.call = call
+        return st
+
+    def post(self, st, old, result, exc):
+        yield 'returns_normally', exc is None
+        if exc is not None:
+            return
+        yield 'merged_content', len(st.r1_items) == 2 * st.inst['nhooks'] and all(any(k.process == i and k.time == j and v is st.vals[(i, j)] for k, v in st.r1_items) for (i, j) in st.vals)
+        yield 'earlier_result_unchanged_by_reset_and_later_return', list(st.r1.items()) == st.r1_items
+        yield 'results_of_two_calls_are_distinct_objects', st.r1 is not st.r2
+        yield 'later_result_holds_only_the_later_statistics', len(st.r2) == st.inst['nhooks'] and all(k.time == 9 for k in st.r2)
+        yield 'returned_dict_is_not_controller_state', id(st.r1) not in st.owned() and id(st.r2) not in st.owned()
+
+    def canary(self, st, old, result, exc):
+        yield 'canary:second_result_equals_first', list(st.r2.items()) == st.r1_items
+
+
+def _reachable(root, depth=6):
+    """objects reachable from the controller through attributes / containers (identity walk)"""
+    seen, out, todo = set(), [], [(root, 0)]
+    while todo:
+        o, d = todo.pop()
+        if id(o) in seen or d > depth or isinstance(o, (type, str, int, float, complex, bool, type(None))):
+            continue
+        seen.add(id(o))
+        out.append(o)
+        if isinstance(o, dict):
+            todo.extend((v, d + 1) for v in o.values())
+        elif isinstance(o, (list, tuple, set)):
+            todo.extend((v, d + 1) for v in o)
+        elif hasattr(o, '__dict__') and not callable(o):
+            todo.extend((v, d + 1) for v in vars(o).values())
+    return out
+
+
 # ------------------------------------------------------------------------------------------------ bounded differential runs
 def _configs(tier):
     from pySDC.implementations.sweeper_classes.generic_implicit import generic_implicit
@@ -246,6 +321,11 @@ def bounded_runs(tier, seed):
         c4.run(u0=u0 * 0.5, t0=0.25, Tend=0.25 + Tend + dt * n)
         r4 = _observe(c4.run(u0=u0, t0=0.0, Tend=Tend))
         rec('same_controller_after_a_different_run_is_bit_identical_to_a_fresh_one', cf, r1 == r4, 'a run after a different run on the same controller differs from a fresh run')
+        # (b'') results handed out earlier stay what they were when later runs happen on the same controller
+        c5 = _make(cf)
+        raw = c5.run(u0=u0, t0=0.0, Tend=Tend)
+        c5.run(u0=u0 * 0.5, t0=0.25, Tend=0.25 + dt * n)
+        rec('results_of_an_earlier_run_are_not_altered_by_a_later_run_on_the_same_controller', cf, _observe(raw) == r1, 'uend / stats returned by the first run changed during the second run')
         # (c) another, differently configured controller lives and runs in between
         other = dict(cf, QI='LU' if cf['QI'] != 'LU' else 'IE', nprocs=1 if cf['nprocs'] > 1 else 2, guess='zero')
         ca, cb = _make(cf), _make(other)
@@ -266,6 +346,13 @@ def bounded_runs(tier, seed):
         same_times = [abs(a[0] - b[0]) < 1e-12 for a, b in zip(us_ref, us_split)]
         ok = len(us_ref) == len(us_split) and all(same_times) and all(a[1] == b[1] for a, b in zip(us_ref, us_split)) and np.asarray(ue).tobytes() == np.asarray(uref).tobytes()
         rec('split_at_block_boundary_is_bit_identical', cf, ok)
+        # (d') the same, continuing on the SAME controller; both parts inspected after the second part ran
+        cc = _make(cf)
+        um, s1 = cc.run(u0=u0, t0=0.0, Tend=Tmid)
+        ue, s2 = cc.run(u0=um, t0=Tmid, Tend=Tend)
+        us_split = sorted(((k.time, np.asarray(v).tobytes()) for k, v in {**s1, **s2}.items() if k.type == 'u'))
+        ok = len(us_ref) == len(us_split) and all(abs(a[0] - b[0]) < 1e-12 and a[1] == b[1] for a, b in zip(us_ref, us_split)) and np.asarray(ue).tobytes() == np.asarray(uref).tobytes()
+        rec('split_at_block_boundary_continued_on_the_same_controller_is_bit_identical', cf, ok)
     for key, bad in sorted(groups.items()):
         obs.append(dict(name=f'bounded:{key}', status='proved' if not bad else 'refuted', backend='native-run', seconds=0.0, kind='bounded', size=0,
                         model=dict(first=bad[:3]) if bad else None, reason='', path=0, counted=False))
@@ -275,7 +362,7 @@ def bounded_runs(tier, seed):
                              failures=sum(1 for o in obs if o['status'] != 'proved')))
 
 
-CONTRACTS = [RestartBlockPoison, ResetStats]
+CONTRACTS = [RestartBlockPoison, ResetStats, ReturnStats]
 EXTRAS = [bounded_runs]
 ASSUMPTIONS = ['determinism of numpy / float operations for identical inputs', 'bit identity is decided only by the bounded differential runs']
 UNDECIDED = ['class-level state of FrozenClass.attrs (status variable names registered by one controller are accepted by all): reported, not an obligation',
